@@ -205,8 +205,9 @@ pub fn compare_session(got: &[SM], want: &BTreeMap<u64, ExpTid>, who: &str) -> R
                 }
             }
         }
-        if exp.single_message && msgs.len() != 1 {
-            return Err(format!("{who}: request {tid} was answered by {} messages: {:?}", msgs.len(), msgs));
+        // (the same acquire-lock line sent twice has two answers with the same id)
+        if exp.single_message && msgs.len() != exp.seq.len() {
+            return Err(format!("{who}: request {tid} was answered by {} messages instead of {}: {:?}", msgs.len(), exp.seq.len(), msgs));
         }
         let total: usize = exp.seq.iter().map(Vec::len).sum();
         let mut ok = total == toks.len();
